@@ -2105,13 +2105,17 @@ thread_main_handle_connection (void *data)
       continue; /* Check again for resume. */
     }           /* End of "suspended" branch. */
 
-    if (was_suspended)
+    if (was_suspended || con->suspend_seen)
     {
+      /* 'suspend_seen' without 'was_suspended': the connection has been
+       * suspended by a callback in this thread and resumed by the daemon's
+       * thread before this thread looked at 'suspended'. */
+      con->suspend_seen = false;
       MHD_update_last_activity_ (con);     /* Reset timeout timer. */
       /* Process response queued during suspend and update states. */
       MHD_connection_handle_idle (con);
       was_suspended = false;
-      if (con->suspended)
+      if (con->suspended || con->suspend_seen)
         continue; /* The handler suspended the connection again: wait for the
                      next resume instead of blocking on the socket. */
     }
@@ -3302,6 +3306,7 @@ internal_suspend_connection_ (struct MHD_Connection *connection)
               daemon->suspended_connections_tail,
               connection);
   connection->suspended = true;
+  connection->suspend_seen = true;
 #ifdef EPOLL_SUPPORT
   if (MHD_D_IS_USING_EPOLL_ (daemon))
   {
